@@ -160,6 +160,9 @@ def gen_reactions(fmt, rnd, n):
         tmin, tmax = rnd.choice([(10, 300), (10, 41000), (300, 5000), (5, 100), (0, 0)])
         if fmt in ("naunet",):
             tmin, tmax = float(tmin), float(tmax)
+            if k % 4 == 1:
+                # one-sided and absent windows as the exchange format writes them (-1 = no bound)
+                tmin, tmax = [(10.0, -1.0), (-1.0, 300.0), (-1.0, -1.0), (5500.0, -1.0)][(k // 4) % 4]
         out.append(AR(rs, ps, a, b, c, tmin, tmax, rnd.randint(1, 9999), code, markers))
     return out
 
@@ -458,6 +461,9 @@ def check_roundtrip(tier, seed):
                         et = expected_type(fmt, ar.code)
                         if et is not None and int(y.reaction_type) != et:
                             V(f"cycle1-type-code: {fmt} code {ar.code} is exchanged as type {int(y.reaction_type)}, its type is {et}")
+                        # the window that comes back is the one the source line declares (not merely the one the first reader produced)
+                        if abs(float(y.temp_min) - float(ar.tmin)) > 0.005 or abs(float(y.temp_max) - float(ar.tmax)) > 0.005:
+                            V(f"cycle1-window-vs-source: {fmt} line declares ({ar.tmin}, {ar.tmax}), read back ({y.temp_min}, {y.temp_max})")
                 from .native_rates import eval_c, CONDITIONS
                 for x, y in zip(cur.reaction_list, back.reaction_list):
                     # the rate law survives: the re-read reaction evaluates to the same coefficient (printed precision of alpha..gamma)
@@ -484,6 +490,29 @@ def check_roundtrip(tier, seed):
                 cur = back
         finally:
             shutil.rmtree(d, ignore_errors=True)
+    # reactions built through the API (no reader involved before the first write): windows of every shape come back as declared
+    fresh()
+    d = tempfile.mkdtemp(prefix="vf_rtapi_")
+    try:
+        from naunet.reactions.reaction import Reaction
+        from naunet.reactiontype import ReactionType as _RT
+        wins = [(10.0, -1.0), (-1.0, 300.0), (-1.0, -1.0), (5500.0, -1.0), (10.0, 41000.0), (300.0, 5000.0), (-9999.0, 9999.0), (0.0, 0.0)]
+        net = Network([Reaction(["C", "H"], ["CH"], lo, hi, 1.0e-10 * (k + 1), 0.5, 10.0 * k, _RT.GAS_TWOBODY, k + 1) for k, (lo, hi) in enumerate(wins)])
+        p = os.path.join(d, "api.naunet")
+        net.write(p, "naunet")
+        fresh()
+        back = Network(filelist=p, fileformats="naunet")
+        cases += len(wins)
+        if len(back.reaction_list) != len(wins):
+            V(f"api-count: {len(back.reaction_list)} reactions read back, {len(wins)} written")
+        else:
+            for (lo, hi), y in zip(wins, back.reaction_list):
+                if float(y.temp_min) != lo or float(y.temp_max) != hi:
+                    V(f"api-window: declared ({lo}, {hi}), read back ({y.temp_min}, {y.temp_max})")
+    except Exception as e:
+        V(f"api-roundtrip-raises: {type(e).__name__}: {e}")
+    finally:
+        shutil.rmtree(d, ignore_errors=True)
     # export twice into the same directory after a revision: the exchange file must follow the network
     fresh()
     d = tempfile.mkdtemp(prefix="vf_exp_")
@@ -636,6 +665,42 @@ def check_histories(tier, seed):
                 V(f"where-by-format: mode {mode}: where_reaction(H+CO->H+O+C) = {w}, expected [0, 2]", [f"mode {mode}"])
     except Exception as e:
         V(f"operation-raises: directed permuted copy: {type(e).__name__}: {e}", [])
+    # directed: an extra species declared while it still takes part in a reaction stays in the network when those reactions go
+    fresh()
+    try:
+        net = Network([Reaction(["C", "O"], ["CO"], alpha=1.0, reaction_type=RT.GAS_TWOBODY), Reaction(["CO", "H"], ["HCO"], alpha=2.0, reaction_type=RT.GAS_TWOBODY),
+                       Reaction(["H", "H"], ["H2"], alpha=3.0, reaction_type=RT.GAS_TWOBODY)])
+        hist = ["Network([C+O->CO, CO+H->HCO, H+H->H2])", "required_species = ['O', 'He']"]
+        net.required_species = ["O", "He"]
+        for step, want in [("remove_reaction(where_species('O'))", {"CO", "H", "HCO", "H2", "O", "He"}), ("remove_reaction(where_species('CO'))", {"H", "H2", "O", "He"})]:
+            idxs = net.where_species("O" if "'O'" in step else "CO")
+            net.remove_reaction(idxs)
+            hist.append(step)
+            cases += 1
+            got = {s_.name for s_ in net.species}
+            if got != want:
+                V(f"required-species-kept: network lists {sorted(got)}, reactions held + required species give {sorted(want)}", list(hist))
+                break
+    except Exception as e:
+        V(f"operation-raises: required species history: {type(e).__name__}: {e}", [])
+    # directed: a reaction recorded twice (two sources, different coefficients) and filtered out comes back twice when the list is widened
+    fresh()
+    try:
+        r1 = Reaction(["C", "H"], ["CH"], alpha=1.0, reaction_type=RT.GAS_TWOBODY)
+        r1b = Reaction(["C", "H"], ["CH"], alpha=2.5, reaction_type=RT.GAS_TWOBODY)
+        r2 = Reaction(["O", "H"], ["OH"], alpha=3.0, reaction_type=RT.GAS_TWOBODY)
+        net = Network([r1, r1b, r2], allowed_species=["O", "H", "OH"])
+        hist = ["Network([C+H->CH (1.0), C+H->CH (2.5), O+H->OH], allowed=[O, H, OH])"]
+        for al, want in [([], [1.0, 2.5, 3.0]), (["C", "H", "CH"], [1.0, 2.5]), (["O", "H", "OH", "He"], [3.0]), ([], [1.0, 2.5, 3.0])]:
+            net.allowed_species = al
+            hist.append(f"allowed_species = {al}")
+            cases += 1
+            got = sorted(r.alpha for r in net.reaction_list)
+            if got != want:
+                V(f"allowed-setter-history: after widening, the network holds the reactions with alpha {got}, the description has {want}", list(hist))
+                break
+    except Exception as e:
+        V(f"operation-raises: repeated filtered reaction: {type(e).__name__}: {e}", [])
     nh = 40 if tier == "quick" else 400
     for h in range(nh):
         fresh()
@@ -651,11 +716,18 @@ def check_histories(tier, seed):
         def ok(r):
             return not allowed or all(s.name in allowed for s in r.reactants + r.products)
         for step in range(rnd.randint(3, 12)):
-            op = rnd.choice(["add", "add", "add", "remove_idx", "remove_list", "remove_list_rep", "remove_where", "remove_inst", "allow", "require", "dedup", "dedup_mode", "add_permuted", "add_permuted", "reindex"])
+            op = rnd.choice(["add", "add", "add", "add_copy", "remove_idx", "remove_list", "remove_list_rep", "remove_where", "remove_inst", "allow", "require", "dedup", "dedup_mode", "add_permuted", "add_permuted", "reindex"])
             try:
                 if op == "add":
                     r = mk()
                     hist.append(f"add {r:minimal}")
+                    net.add_reaction(r)
+                    (held if ok(r) else skipped).append(r)
+                elif op == "add_copy" and (held or skipped):
+                    # the same reaction from a second source, with another coefficient
+                    src = rnd.choice(held + skipped)
+                    r = Reaction([s.name for s in src.reactants], [s.name for s in src.products], alpha=src.alpha + 0.5, reaction_type=RT.GAS_TWOBODY)
+                    hist.append(f"add {r:minimal} (second entry, alpha {r.alpha})")
                     net.add_reaction(r)
                     (held if ok(r) else skipped).append(r)
                 elif op == "remove_idx" and held:
@@ -697,7 +769,7 @@ def check_histories(tier, seed):
                     pool = held + skipped
                     held, skipped = [r for r in pool if ok(r)], [r for r in pool if not ok(r)]
                 elif op == "require":
-                    required = rnd.choice([[], ["He"], ["O"]])
+                    required = rnd.choice([[], ["He"], ["O"], ["O", "H2"], ["C", "He"]])
                     if allowed and not set(required) <= set(allowed):
                         required = []
                     hist.append(f"required_species = {required}")
@@ -838,7 +910,27 @@ def check_duplicates(tier, seed):
         if h < nd:
             reacs = [Reaction(list(a), list(b), -1.0, -1.0, 1.0, reaction_type=t) for a, b, t in directed[h]]
         net = Network(reacs)
-        for mode in (None, "brief", "minimal", "short"):
+        stages = [("built", (None, "brief", "minimal", "short"))]
+        if variant in (0, 1) and h >= nd:
+            stages.append(("edited-in-place", (None, "minimal")))
+        for stage, modes in stages:
+          if stage == "edited-in-place":
+            # history: the reactions have been hashed / compared by the first report; now some are edited in place
+            from naunet.species import Species as _Sp15
+            done = []
+            for r in rnd.sample(list({id(x): x for x in net.reaction_list}.values()), min(2, len({id(x) for x in net.reaction_list}))):
+                how = rnd.choice(["assign-products", "append-reactant", "remove-reactant", "copy-of-other"])
+                if how == "assign-products":
+                    r.products = [_Sp15(rnd.choice(alphabet)) for _ in range(rnd.choice([1, 2]))]
+                elif how == "append-reactant" and len(r.reactants) < 3:
+                    r.reactants.append(_Sp15(rnd.choice(alphabet)))
+                elif how == "remove-reactant" and len(r.reactants) > 1:
+                    r.reactants.remove(r.reactants[0])
+                else:
+                    o = rnd.choice(net.reaction_list)
+                    r.reactants, r.products = [_Sp15(x.name) for x in o.reactants], [_Sp15(x.name) for x in o.products]
+                done.append(how)
+          for mode in modes:
             cases += 1
             try:
                 dupes, dupidx, first = net.find_duplicate_reaction(mode)
@@ -877,7 +969,7 @@ def check_duplicates(tier, seed):
                     classes[k] = [i]
             wf = [v[0] for k, v in classes.items() if len(v) > 1]
             if list(dupidx) != wd:
-                V(f"dupidx: mode {mode}: reported {list(dupidx)} reference {wd}", reacs)
+                V(f"dupidx: mode {mode}: reported {list(dupidx)} reference {wd}" + (" (after editing reactions in place)" if stage != "built" else ""), reacs)
             elif [id(x) for x in dupes] != [id(net.reaction_list[i]) for i in wd]:
                 V(f"dupes: mode {mode}: reported reactions are not reaction_list[dupidx]", reacs)
             elif [id(x) for x in first] != [id(net.reaction_list[i]) for i in wf]:
